@@ -367,12 +367,34 @@ def _big_coord_cases(rng, big):
         yield {"op": "extend", "start": [r[1] for r in recs], "stop": [r[2] for r in recs], "sizes": [2 ** 41] * len(recs), "fwd": fwd, "len": L}
 
 
+def _big_table_cases(rng, big):
+    """round 9: contingency counts whose PRODUCTS pass 2**31 / 2**32 (two contigs of 50-70 kb, tens of thousands of covered and of
+    shared bases): Forbes / Jaccard / the table itself must still be the per-base values (oracle only: the Lean model enumerates
+    bases and is not asked for these sizes)"""
+    for _ in range(6 if big else 2):
+        chs = []
+        for _c in range(2):
+            size = rng.randrange(50000, 70000)
+            a0 = rng.randrange(0, 5000)
+            a1 = a0 + rng.randrange(25000, 40000)
+            b0 = rng.randrange(a0, a0 + 8000)
+            b1 = min(size, b0 + rng.randrange(25000, 40000))
+            chs.append({"size": size, "a": [[a0, a1]], "b": [[b0, b1]]})
+        for op in ("forbes", "jaccard", "geo_jaccard"):
+            yield {"op": op, "chroms": chs, "nolean": True}
+        yield {"op": "contingency", "a": chs[0]["a"], "b": chs[0]["b"], "size": chs[0]["size"], "nolean": True}
+
+
+def model_request(c):
+    return None if c.get("nolean") else c
+
+
 def cases(tier, rng):
     """the base cases, and for a sample of them the same case (a) with the start / stop columns in another integer type
     (uint8..uint64, int8..int32; the numbers of the case fit the type with room to spare) and (b) - Geometry / StreamedGeometry -
     with contigs whose name has an underscore (ignored by the genome context) listed BEFORE regular ones in the size dict"""
     big = tier in ("thorough", "widen")
-    for c in itertools.chain(_base_cases(tier, rng), _big_coord_cases(rng, big)):
+    for c in itertools.chain(_base_cases(tier, rng), _big_coord_cases(rng, big), _big_table_cases(rng, big)):
         yield c
         op = c["op"]
         if op in ("geo_info",):
